@@ -189,8 +189,59 @@ def run_part(prop, part, tier, replay=None, seed=0, known_file=None, binary=None
         if os.path.exists(outp):
             results.append(json.load(open(outp)))
         else:
-            herr.append("%s shard produced no result (exit %s): %s" % (test, rc, txt[-3000:]))
+            crash = classify_crash(txt)
+            if crash and rc != -9:
+                # the code under test crashed the process: that is a violation, not a harness error
+                results.append(crash_result(prop, test, outp, crash, txt, replay))
+            else:
+                herr.append("%s shard produced no result (exit %s): %s" % (test, rc, txt[-3000:]))
     return results, herr
+
+
+def classify_crash(txt):
+    """Returns the panic/fatal line if the process was crashed by code under test (not by harness code)."""
+    lines = txt.splitlines()
+    for i, l in enumerate(lines):
+        if l.startswith("panic: ") or l.startswith("fatal error: "):
+            head = l
+            # the first source frame of the crashing goroutine
+            for m in lines[i + 1:i + 80]:
+                m = m.strip()
+                if m.startswith("/") and ".go:" in m:
+                    if "/src/runtime/" in m or "/src/testing/" in m:
+                        continue
+                    if "zz_verif_" in m or "/internal/vsched/" in m or "/internal/verifx/" in m:
+                        return None
+                    return head + " at " + m.split(" ")[0]
+            return head
+    return None
+
+
+def crash_result(prop, test, outp, crash, txt, replay):
+    sig = "process-crash: " + crash[:160]
+    rp = replay
+    scen = test
+    cur = outp + ".current"
+    if os.path.exists(cur):
+        try:
+            d = json.load(open(cur))
+            scen = d.get("scenario", test)
+            d["sig"], d["msg"] = sig, crash
+            d["log"] = txt[-6000:].splitlines()
+            if not replay:
+                os.makedirs(os.path.join(VERIF, "replays"), exist_ok=True)
+                rp = os.path.join(VERIF, "replays", "%s-crash-%s.json" % (prop, hashlib.sha1((scen + sig).encode()).hexdigest()[:12]))
+                json.dump(d, open(rp, "w"), indent=1)
+        except Exception:
+            pass
+    known = False
+    kf = known_file()
+    if kf:
+        for line in open(kf):
+            if line.startswith("known:") and ("property=%s " % prop) in line and ("sig=" + sig) in line:
+                known = True
+    return {"scenarios": [{"name": scen, "execs": 1, "steps": 1, "outcomes": {"VIOLATION: " + sig: 1}, "complete": False}],
+            "violations": [{"scenario": scen, "sig": sig, "msg": "the code under test crashed the worker process: " + crash + "\n" + txt[-1500:], "known": known, "replay": rp}]}
 
 
 def merge(prop, tier, seed, level, parts_results, herr, wall):
